@@ -21,6 +21,16 @@ FN = 80
 PRED_NS = 'http://example.org/p#'
 OBJ_NS = 'http://example.org/o#'
 
+
+def pred(i):
+    """predicate 0 is bqbiol:is (the one get_variable_by_ontology_term looks for), the others are arbitrary"""
+    return ('http://biomodels.net/biology-qualifiers/', 'is') if i == 0 else (PRED_NS, 'p%d' % i)
+
+
+def pred_index(uri):
+    u = str(uri)
+    return 0 if u.endswith('biology-qualifiers/is') else int(u.split('#p')[-1])
+
 # AssertionError and AttributeError both mean 'the equations do not form a graph' (which one fires first depends on
 # Python set iteration order inside Model.graph), so they are one class
 ERR_CODES = {'ValueError': 1, 'KeyError': 2, 'AssertionError': 3, 'AttributeError': 3}
@@ -251,7 +261,7 @@ class Impl(object):
             m.transfer_cmeta_id(self.objs[op[1]], self.objs[op[2]])
             return ['ok']
         if k == 'triple':
-            m.rdf.add((create_rdf_node('#' + op[1]), create_rdf_node((PRED_NS, 'p%d' % op[2])),
+            m.rdf.add((create_rdf_node('#' + op[1]), create_rdf_node(pred(op[2])),
                        create_rdf_node((OBJ_NS, 'o%d' % op[3]))))
             return ['ok']
         if k == 'q_eqs':
@@ -289,7 +299,7 @@ class Impl(object):
         if k == 'q_bycmeta':
             return ['ok', self.vidx(m.get_variable_by_cmeta_id(op[1]))]
         if k == 'q_byrdf':
-            vs = m.get_variables_by_rdf((PRED_NS, 'p%d' % op[1]), (OBJ_NS, 'o%d' % op[2]))
+            vs = m.get_variables_by_rdf(pred(op[1]), (OBJ_NS, 'o%d' % op[2]))
             return ['ok', [self.vidx(v) for v in vs]]
         if k == 'q_hascmeta':
             return ['ok', bool(m.has_cmeta_id(op[1]))]
@@ -302,7 +312,7 @@ class Impl(object):
             out = []
             if v.rdf_identity is not None:
                 for s, p, o in m.rdf.triples((v.rdf_identity, None, None)):
-                    out.append([int(str(p).split('#p')[-1]), int(str(o).split('#o')[-1])])
+                    out.append([pred_index(p), int(str(o).split('#o')[-1])])
             return ['ok', sorted(out)]
         raise RuntimeError('unknown op %r' % (op,))
 
